@@ -37,6 +37,16 @@ func ParseVal(s string) (Val, error) {
 			return Val{}, err
 		}
 		return Str(str), nil
+	case strings.HasPrefix(s, "a:"):
+		// an adversarial number: an object whose valueOf performs an operation on a subject and then returns N
+		// ("a:<number>|<op json>"); only meaningful where the value is converted, never stored
+		t := s[2:]
+		i := strings.IndexByte(t, '|')
+		if i < 0 {
+			return Val{}, fmt.Errorf("bad adversary %q", s)
+		}
+		f, err := strconv.ParseFloat(t[:i], 64)
+		return Val{K: 'a', N: f, S: t[i+1:]}, err
 	case strings.HasPrefix(s, "y:"):
 		n, err := strconv.Atoi(s[2:])
 		return SymV(n), err
